@@ -22,7 +22,7 @@ META = {
                    'with absent keys, complete / incomplete / unflagged, some produced by the real recorder) is written to the in-memory, file and '
                    'S3 cassettes (key prefixes incl. the default empty one, page sizes 1 / 2 / 1000, tape-chosen directory order, restarts), then '
                    '~30 lookups per history (category x filter kinds x limits 1..n+1 x ordered / random, with and without skip-incomplete) are '
-                   'compared with a reference store and across the three cassettes. Also: S3 key prefixes spelt with the words of the key layout (metadata, svc/metadata, metadata/v2, full), and annotation of stored recordings through ANOTHER cassette object between two lookups of a long-lived one. A recording saved while a lazy lookup is still being consumed. A storage-class threshold on the S3 store; ids whose text order is unrelated to creation order.'),
+                   'compared with a reference store and across the three cassettes. Also: S3 key prefixes spelt with the words of the key layout (metadata, svc/metadata, metadata/v2, full), and annotation of stored recordings through ANOTHER cassette object between two lookups of a long-lived one. A recording saved while a lazy lookup is still being consumed. A storage-class threshold on the S3 store; ids whose text order is unrelated to creation order. Callers that change their metadata objects after the save.'),
     'level_note': 'Trusted: ModelStore / model_match with explicit don\'t-care cells, fake S3 listing (UTF-8 order, continuation by last key), os.listdir order proxy. limit is a positive integer or None.',
     'rule': ('evaluation = one history with its lookups on three cassettes; non-trivial = at least one lookup had both matching and non-matching recordings '
              'of the asked category or a sibling category; distinct = distinct event-log digest.'),
